@@ -194,7 +194,8 @@ def run_check(checker, ref_ent, l10n_ent, android):
     elif cache_in:
         reference = [[]]        # known_entities answers from the cache: the values are not read again
     else:
-        reference = [[canon(e.raw_val) for e in checker.reference.values()]]
+        # every entry of the reference, whatever values() makes of repeated keys
+        reference = [[canon(e.raw_val) for e in tuple.__iter__(checker.reference)]]
     raw = []
     with Recording() as rec:
         try:
@@ -231,6 +232,7 @@ NAME_POOL = ["brandShortName", "foo", "bar.baz", "a-b", "x1", "_u", "é", "vendo
 HTML_LIKE_NAMES = ["copyright", "region", "timestamp", "notification", "nbsp", "hellip", "copy", "eacute",
                    "ample", "ltr", "gtk", "quote", "copy.label", "reg-x"]
 UNKNOWN_POOL = ["unk", "zzz", "other.name", "Q", "b", "brandShortNam", "foo2"]
+SHADOW_NAMES = ["brandShortName", "brandFullName", "shadow.only", "vendorShortName"]
 
 
 def gen_text(rng, alphabet, q):
@@ -458,11 +460,22 @@ class FileCase:
             if n:
                 v = self.ref_nodes[rng.randrange(n)]
                 v[rng.randint(0, len(v)):0] = [("e", "amp"), ("t", x + ";")]
+        # repeated keys in the reference: an EARLIER definition (shadowed by the later one) that is the
+        # only user of some entity; the known entities are collected from ALL reference values
+        self.dups = []
+        if n and rng.random() < 0.35:
+            for x in rng.sample([y for y in SHADOW_NAMES if y not in self.pool], rng.choice([1, 1, 2])):
+                self.dups.append((rng.randrange(n), [("t", rng.choice(["", "old "])), ("e", x)]))
+                for v in self.l10n_nodes:
+                    if rng.random() < 0.5:
+                        v.insert(rng.randint(0, len(v)), ("e", x))
         self.comments = [rng.choice([None, None, "note", "a\n b"]) for _ in range(n)]
 
     def ref_text(self):
-        return "\n".join(dtd_entity("k%d" % i, render(v, self.q), self.delim, self.comments[i])
-                         for i, v in enumerate(self.ref_nodes)) + "\n"
+        shadowed = "".join(dtd_entity("k%d" % i, render(v, self.q), self.delim) + "\n"
+                           for i, v in getattr(self, "dups", []))
+        return shadowed + "\n".join(dtd_entity("k%d" % i, render(v, self.q), self.delim, self.comments[i])
+                                    for i, v in enumerate(self.ref_nodes)) + "\n"
 
     def l10n_text(self, override=None):
         vals = [render(v, self.q) for v in self.l10n_nodes]
@@ -472,7 +485,7 @@ class FileCase:
 
     def known(self):
         out = set()
-        for v in self.ref_nodes:
+        for v in self.ref_nodes + [v for _, v in getattr(self, "dups", [])]:
             out |= names_of(v)
         return out - XMLLIST
 
@@ -822,16 +835,22 @@ def run(chk, runner_ok):
         ([("e", "copyright"), ("t", " "), ("e", "region"), ("e", "timestamp"), ("e", "notification")],
          [("e", "copyright"), ("e", "region"), ("e", "timestamp"), ("e", "notification")]),
         ([("e", "nbsp"), ("e", "copy"), ("e", "hellip")], [("e", "copy"), ("e", "nbsp"), ("e", "eacute")]),
+        # a repeated key: the shadowed earlier definition is the only user of brandShortName
+        ([("t", "plain")], [("e", "brandShortName"), ("t", " x")], [(0, [("e", "brandShortName"), ("t", " old")])]),
+        ([("e", "foo")], [("e", "brandShortName"), ("e", "foo"), ("e", "unk")],
+         [(0, [("e", "brandShortName")]), (0, [("t", "older "), ("e", "vendorShortName")])]),
     ]
-    for ref_nodes, l10n_nodes in probes:
+    for probe in probes:
+        ref_nodes, l10n_nodes = probe[0], probe[1]
         fc = FileCase(rng, 0)
         fc.q, fc.delim = '"', "'"
         fc.ref_nodes, fc.l10n_nodes, fc.comments = [ref_nodes], [l10n_nodes], [None]
+        fc.dups = list(probe[2]) if len(probe) > 2 else []
         rents, lents = parse_dtd(fc.ref_text()), parse_dtd(fc.l10n_text())
         checker = get_checker()
         checker.set_reference(rents)
         info = {"ref_file": fc.ref_text(), "l10n_file": fc.l10n_text(), "key": "k0", "set_reference": True}
-        res, raw = b.add(info, checker, rents[0], lents[0])
+        res, raw = b.add(info, checker, rents["k0"], lents[0])
         judge_grammar(chk, info, raw, l10n_nodes, ref_nodes, fc.known(), fc.q)
     nfiles = 0
     while b.n < target:
@@ -839,7 +858,7 @@ def run(chk, runner_ok):
         fc = FileCase(rng, n)
         rtext, ltext = fc.ref_text(), fc.l10n_text()
         rents, lents = parse_dtd(rtext), parse_dtd(ltext)
-        if len(rents) != n or len(lents) != n or any(e.key != "k%d" % i for i, e in enumerate(lents)):
+        if len(rents) != n + len(fc.dups) or len(lents) != n or any(e.key != "k%d" % i for i, e in enumerate(lents)):
             raise RuntimeError("generated .dtd did not parse into its entities: " + repr(rtext))
         setref = rng.random() < 0.85
         checker = get_checker()
@@ -849,7 +868,7 @@ def run(chk, runner_ok):
         chk.hist("known_names_per_file", len(fc.known()))
         for i in range(n):
             info = {"ref_file": rtext, "l10n_file": ltext, "key": "k%d" % i, "set_reference": setref}
-            res, raw = b.add(info, checker, rents[i], lents[i])
+            res, raw = b.add(info, checker, rents["k%d" % i], lents[i])
             known = fc.known() if setref else (names_of(fc.ref_nodes[i]) - XMLLIST)
             judge_grammar(chk, info, raw, fc.l10n_nodes[i], fc.ref_nodes[i], known, fc.q)
             if raw is not None:
@@ -891,7 +910,7 @@ def run(chk, runner_ok):
                     raise RuntimeError("edited .dtd did not parse into its entities: " + repr(ltext))
                 info = {"ref_file": rtext, "l10n_file": ltext, "key": "k%d" % i, "set_reference": True,
                         "edit": name, "position": pos, "value": value}
-                res, raw = b.add(info, checker, rents[i], lents[i])
+                res, raw = b.add(info, checker, rents["k%d" % i], lents[i])
                 judge_broken(chk, info, raw, name)
                 chk.hist("edit", name)
     chk.notes.append(f"DTD-CHECK-edits: {len(EDITS)} edits at every position of {nvalues} grammar values "
